@@ -107,6 +107,41 @@ Proof.
   - destruct o; try (rewrite bump_result in H; rewrite bump_conn; apply IH; [lia | lia | exact H]).
     cbn in H. discriminate.
 Qed.
+(* the reply and the number of deliveries of a call do not depend on the connection it starts with *)
+Lemma call_loop_result_conn : forall t c1 c2 (outs : list (outcome R)),
+  c_result (call_loop t c1 outs) = c_result (call_loop t c2 outs) /\
+  c_deliveries (call_loop t c1 outs) = c_deliveries (call_loop t c2 outs).
+Proof.
+  induction t as [| t IH]; intros c1 c2 outs; [split; reflexivity |].
+  destruct outs as [| o rest]; [split; reflexivity |].
+  cbn [call_loop]. destruct o; cbn [bump c_result c_deliveries]; split; reflexivity.
+Qed.
+
+Lemma call_seq_results : forall (calls : list (list (outcome R))) conn,
+  map c_result (call_seq conn calls) = map (fun outs => c_result (call false outs)) calls /\
+  map c_deliveries (call_seq conn calls) = map (fun outs => c_deliveries (call false outs)) calls.
+Proof.
+  induction calls as [| outs rest IH]; intro conn; [split; reflexivity |].
+  cbn [call_seq map]. destruct (IH (c_conn (call conn outs))) as [H1 H2].
+  destruct (call_loop_result_conn retries conn false outs) as [E1 E2].
+  unfold call in *. rewrite H1, H2, E1, E2. split; reflexivity.
+Qed.
+
+Lemma call_seq_length : forall (calls : list (list (outcome R))) conn, length (call_seq conn calls) = length calls.
+Proof. induction calls as [| o r IH]; intro conn; [reflexivity |]. cbn [call_seq length]. rewrite IH. reflexivity. Qed.
+
+(* the result of the k-th call is a function of the k-th outcome list only: whatever comes before or after *)
+Lemma earlier_results_unaffected : forall conn conn' (pre pre' : list (list (outcome R))) c post post',
+  length pre = length pre' ->
+  nth_error (map c_result (call_seq conn (pre ++ c :: post))) (length pre) = Some (c_result (call false c)) /\
+  nth_error (map c_result (call_seq conn' (pre' ++ c :: post'))) (length pre) = Some (c_result (call false c)).
+Proof.
+  intros conn conn' pre pre' c post post' Hl.
+  destruct (call_seq_results (pre ++ c :: post) conn) as [H _].
+  destruct (call_seq_results (pre' ++ c :: post') conn') as [H' _].
+  rewrite H, H'. rewrite Hl at 2.
+  rewrite !nth_error_map, !nth_error_app2, !Nat.sub_diag by lia. split; reflexivity.
+Qed.
 End Loop.
 
 (* ================= 2. handler results ================= *)
